@@ -141,13 +141,13 @@ var vecStructural = map[string]bool{
 }
 
 type vecStats struct {
-	before  map[string]map[[2]string]bool // parent → (X, Y): X seen before Y
-	donors  map[string]map[string][]*xnode
-	without map[string]map[string]bool // parent → X: some occurrence of the parent has no X
-	minVer  map[string]map[string]int
-	occurs  map[string]int
-	values  map[string][]string // value texts seen per "element name|type" (AttributeValue: per attribute name)
-	valSeen map[string]bool
+	before   map[string]map[[2]string]bool // parent → (X, Y): X seen before Y
+	donors   map[string]map[string][]*xnode
+	without  map[string]map[string]bool // parent → X: some occurrence of the parent has no X
+	minVer   map[string]map[string]int
+	occurs   map[string]int
+	values   map[string][]string // value texts seen per "element name|type" (AttributeValue: per attribute name)
+	valSeen  map[string]bool
 	specSeen map[string]bool // distinct occurrences of specification-pinned structures already varied
 }
 
